@@ -230,6 +230,10 @@ func (r *ConcRun) execOp(t *Task, co *concOp) {
 		}
 	case "renameDataset":
 		_, co.err = h.Dsm.UpdateDataset(op.DS, &server.UpdateDatasetConfig{ID: op.DS2})
+	case "listDatasets":
+		// a client asks for the dataset list while others create, rename and delete datasets
+		_ = h.Dsm.GetDatasetNames()
+		r.Stats["dataset_lists"]++
 	case "think":
 	}
 }
